@@ -1,0 +1,30 @@
+//go:build verif
+
+// Package verifhook provides named scheduling/observation points for the runtime
+// verification harness. It is only active when built with the "verif" tag; without the
+// tag every function in this package is an empty, inlinable no-op.
+package verifhook
+
+import "sync/atomic"
+
+// Enabled reports whether the package was built with the verif tag.
+const Enabled = true
+
+var hook atomic.Pointer[func(name string)]
+
+// Set installs (or with nil removes) the callback invoked at every Point.
+func Set(f func(name string)) {
+	if f == nil {
+		hook.Store(nil)
+		return
+	}
+	hook.Store(&f)
+}
+
+// Point marks a place between two critical sections of the library. The harness may block
+// here to force an interleaving. No lock of the library is held at any Point.
+func Point(name string) {
+	if f := hook.Load(); f != nil {
+		(*f)(name)
+	}
+}
